@@ -23,8 +23,9 @@ SPLIT = {
 }
 
 
-# quick tier only: rows whose obligations are solver-bound (a handful of paths, minutes of solver time: sums of absolute
-# differences, dual / long multiplies, bit-field extraction with symbolic lsb/width under a 34-way register multiplexer)
+# quick tier only: rows whose obligations are solver-bound (a handful of paths, minutes of solver time: the whole multiply
+# family, sums of absolute differences, bit-field extraction / insertion with symbolic lsb/width -- each under a 34-way
+# register multiplexer per register-number field)
 # run with their REGISTER-NUMBER fields pinned to distinct registers; all operand values, flags, mode and the remaining
 # fields stay symbolic.  Register-number generality of these rows is covered by the thorough tier and by the operand
 # rows of C06/C07.
@@ -93,11 +94,20 @@ def family_units(families, archs, tables, only=None, sec=True, virt=False, tag='
             if name in PER_ROW:
                 kw.update(PER_ROW[name])
             pin_tag = ''
-            if os.environ.get('VERIF_TIER_ACTIVE', 'quick') == 'quick' and name in QUICK_PIN and not kw.get('fix') \
-                    and not kw.get('reg_values'):
-                have = {n for k, n, w, v in E.items if k == 'f'}
-                kw['fix'] = {k: v for k, v in QUICK_PIN[name].items() if k in have}
-                pin_tag = '/regs-pinned'
+            if os.environ.get('VERIF_TIER_ACTIVE', 'quick') == 'quick' and not kw.get('fix') \
+                    and not kw.get('reg_values') and (name in QUICK_PIN or E.family == 'mul' or
+                                                      name.startswith(('Ubfx', 'Sbfx', 'Bfi', 'Bfc', 'Usad'))):
+                have = [n for k, n, w, v in E.items if k == 'f']
+                pins = dict(QUICK_PIN.get(name, {}))
+                nxt = 1
+                for fld in have:  # every register-number field gets its own register (R1, R2, ...)
+                    if fld in ('Rn', 'Rm', 'Ra', 'Rd', 'RdLo', 'RdHi', 'Rdn', 'Rdm') and fld not in pins:
+                        while nxt in pins.values():
+                            nxt += 1
+                        pins[fld] = nxt
+                        nxt += 1
+                kw['fix'] = {k: v for k, v in pins.items() if k in have}
+                pin_tag = '/regs-pinned' if kw['fix'] else ''
             extra_split = []
             if os.environ.get('VERIF_TIER_ACTIVE', 'quick') == 'quick' and kw.get('mpu'):
                 # MPU-on units in the quick tier: the protection rules are the subject, the condition field is not --
